@@ -149,6 +149,33 @@ def checkBig (A : Arr) (pruned : Bool) (f : List String) : Option String :=
 
 def handle (key : String) (ins obs : List String) : Verdict :=
   match key, ins, obs with
+  | "C20.budget", [bdd, names, pruned, budget], [text, status, got] =>
+    match parseArr? bdd, decNames? names, budget.toNat? with
+    | some A, some names, some budget =>
+      let pruned := pruned == "1"
+      let mt := toDotString A names pruned
+      let mtext := match mt with | .ok t => encText 'x' t | _ => "panic"
+      let model := mtext ++ (match writeDotBudget A names pruned budget, mt with
+        | .ok (true, out), .ok t => if out == textBytes t then " ok =" else " ok " ++ hexOfBytes out
+        | .ok (true, out), _ => " ok " ++ hexOfBytes out
+        | .ok (false, out), _ => " err " ++ hexOfBytes out
+        | _, _ => " panic ?")
+      let len := (text.length - 1) / 2
+      -- independent of the model: Ok iff the budget covers the text, and then all of it arrived; otherwise Err and
+      -- exactly the first `budget` bytes arrived
+      let fail := (dotVerdict A names pruned text) <|>
+        (if text == "panic" then none
+         else if budget ≥ len then (if status == "ok" && got == "=" then none else some "budget-covers-text-but-not-ok")
+         else if status == "ok" then some "hard-error-swallowed"
+         else if status != "err" then some ("outcome:" ++ status)
+         else if got.length != 1 + 2 * budget || !((got.drop 1).toString.isPrefixOf (text.drop 1).toString) then
+           some "sink-not-the-first-budget-bytes"
+         else none)
+      { agree := model == " ".intercalate [text, status, got],
+        model := if model.length > 300 then (model.take 300).toString ++ "…" else model, fail,
+        nontrivial := true,
+        tags := ["budget", status, if len ≥ 65535 then "64KiB" else if len ≥ 8191 then "8KiB" else "short"] }
+    | _, _, _ => Verdict.bad "args"
   | "C20.big", [n, _total, _seed, pruned], arr :: digest :: bytes :: rest =>
     match n.toNat?, parseArr? arr with
     | some n, some A =>
